@@ -459,9 +459,12 @@ class PeerConnection:
     def dwa_wait_time(self) -> int:
         """Time spent waiting for DWA, in seconds. If no DWR has been sent,
         returns zero."""
-        if not self.is_waiting_for_dwa:
+        # read once: the connection's reader thread clears the time stamp when
+        # the DWA arrives, possibly between a test and the subtraction
+        last_dwr = self._last_dwr
+        if not last_dwr > 0:
             return 0
-        return int(time.time()) - self._last_dwr
+        return int(time.time()) - last_dwr
 
     @property
     def lifetime(self) -> int:
